@@ -100,6 +100,18 @@ PROPS = {
         oracle='per key: exactly one successful insertion, all calls return the same element address, lookups starting after an insertion returned hit (logical stamps), elements fully constructed when visible (value check + HB race detector over the value array), full fixed table rejects without consuming a move-only argument, contents/size/iteration at quiescence',
         assumptions=['harness hash function places keys in chosen groups with chosen 7-bit tags (collisions, equal tags, group wrapping the table end)'],
     ),
+    'C04': dict(
+        title='concurrent vector: stable addresses, one element per index, built/destroyed once',
+        quick=[mc('mc_vector', 'all', 'sc', P=2, E=0, budget=200)],
+        thorough=[mc('mc_vector', 'all', 'sc', P=3, E=1, budget=1500), mc('mc_vector', '0,1,2,3', 'tso', P=2, D=1, E=0, budget=600)],
+        oracle='one address per index across threads and over time; per-address construction/destruction counters (exactly once, losers\' speculative blocks destroyed once and never visible); snapshots read through superseded block tables: the freed-memory oracle + virtual clock flag any table freed < 64 s after the growth that superseded it (clock scripts: +0, +63 s, +64 s across the 16-bit wrap, +130 s while a retire is stalled); HB race detector on elements',
+    ),
+    'C17': dict(
+        title='page allocators / object pool: resources conserved, never shared, never lost',
+        quick=[mc('mc_pages', 'all', 'sc', P=2, E=0, budget=200)],
+        thorough=[mc('mc_pages', 'all', 'sc', P=3, E=1, budget=1500), mc('mc_pages', '0-4,7,8', 'tso', P=2, D=1, E=0, budget=900)],
+        oracle='ownership map over a recording upstream whose pages are never reused: nothing handed out that another caller holds or that was already returned upstream, nothing returned twice or while held; at quiescence obtained - returned = held + cached; destruction returns the cache; strict pool: outstanding <= injected and blocked pops resume (deadlock detector); auto pool: recycler once per return, overflow destroyed, nothing leaked',
+    ),
 }
 
 SEQX_ASSUMPTIONS = [
